@@ -31,6 +31,7 @@ pub fn def() -> CheckDef {
                 ("rewrite_renaming", 100 * m),
                 ("rewrite_renaming_permutes_internal_names", 100 * m),
                 ("rewrite_blanks", 100 * m),
+                ("rewrite_line_breaks", 50 * m),
                 ("rewrite_parens", 100 * m),
                 ("rewrite_long_hybrids", 100 * m),
                 ("rewrite_constants", 100 * m),
@@ -132,6 +133,11 @@ fn run(rng: &mut Rng, idx: u64, tier: Tier) -> CaseOut {
     if rng.coin() {
         style.extra_blanks = true;
         kinds.push("rewrite_blanks");
+        if rng.coin() {
+            // line feeds, CR LF, form feed, no-break and em space between ordinary tokens and inside operator headers
+            style.line_breaks = true;
+            kinds.push("rewrite_line_breaks");
+        }
     }
     if rng.coin() {
         style.redundant_parens = true;
